@@ -119,6 +119,9 @@ type Machine struct {
 	raceOn   bool
 	mutexes  map[*Obj]*mutexState
 	subKeys  map[string]*Obj
+	spec     bool // speculative (if-conversion) evaluation in progress
+	noIfConv bool
+	ifConvs  int
 }
 
 func (m *Machine) unsupported(format string, args ...interface{}) pathEnd {
@@ -203,6 +206,9 @@ func (m *Machine) branch(c *Term) bool {
 	if v, ok := m.litKnown(c); ok {
 		return v
 	}
+	if m.spec {
+		panic(specAbort{})
+	}
 	if m.concrete != nil {
 		return m.evalConcrete(c) == 1
 	}
@@ -256,6 +262,9 @@ func (m *Machine) branch(c *Term) bool {
 func (m *Machine) choose(n int, conds []*Term) int {
 	if n == 1 && (conds == nil || conds[0] == nil) {
 		return 0
+	}
+	if m.spec {
+		panic(specAbort{})
 	}
 	if m.concrete != nil {
 		for i := 0; i < n; i++ {
@@ -334,6 +343,9 @@ func (m *Machine) nextReplayChoice(n int) int {
 
 // assume restricts the path to c.
 func (m *Machine) assume(c *Term) {
+	if m.spec {
+		panic(specAbort{})
+	}
 	if v, ok := m.litKnown(c); ok {
 		if !v {
 			m.endPath("assume", "")
@@ -368,6 +380,9 @@ func (m *Machine) assume(c *Term) {
 
 // check verifies that c holds on every input of this path.
 func (m *Machine) check(c *Term, kind, label string) {
+	if m.spec {
+		panic(specAbort{})
+	}
 	m.asserts[label]++
 	if v, ok := m.litKnown(c); ok {
 		if v {
@@ -502,6 +517,7 @@ func (m *Machine) resetPath() {
 	m.cur = nil
 	m.aborting = false
 	m.inconc = ""
+	m.spec = false
 	m.preempt = 0
 	m.quiesce = nil
 	m.traceLog = nil
